@@ -199,6 +199,8 @@ def run_path(I, fn, decisions, time_limit):
         except Exception as ex: res['status'] = 'internal'; res['msg'] = 'post hook: ' + traceback.format_exc()[-2000:]
     return res
 
+POOL = None     # optional semaphore shared by concurrently running explorations (set by checklib)
+
 def explore(I, fn, max_paths=2000, workers=16, path_time=300, total_time=1800, progress=None):
     """explore all feasible paths of harness function fn starting from the current (concrete) interpreter state.
     Each path runs in a forked child.  Returns list of path results + summary."""
@@ -206,6 +208,10 @@ def explore(I, fn, max_paths=2000, workers=16, path_time=300, total_time=1800, p
     work = [[]]; running = {}; done = []; t0 = time.time(); truncated = None; base_steps = I.steps
     while work or running:
         while work and len(running) < workers and len(done) + len(running) < max_paths and time.time() - t0 < total_time:
+            token = False
+            if POOL is not None and running:
+                token = POOL.acquire(block=False)
+                if not token: break
             prefix = work.pop()
             r, w = os.pipe()
             pid = os.fork()
@@ -221,7 +227,7 @@ def explore(I, fn, max_paths=2000, workers=16, path_time=300, total_time=1800, p
                     data = pickle.dumps({'status': 'internal', 'msg': 'child: ' + traceback.format_exc()[-2000:], 'decisions': prefix, 'ndec': len(prefix), 'prefix_len': len(prefix), 'results': [], 'outs': {}, 'steps': 0, 'nq': 0, 'tq': 0, 'wall': 0, 'called': [], 'stubs': [], 'notes': [], 'choices': {}})
                 with os.fdopen(w, 'wb') as f: f.write(data)
                 os._exit(0)
-            os.close(w); running[r] = (pid, prefix, bytearray(), time.time())
+            os.close(w); running[r] = (pid, prefix, bytearray(), time.time(), token)
         if not running:
             if work: truncated = 'path or time budget exhausted with %d unexplored prefixes' % len(work)
             break
@@ -229,7 +235,8 @@ def explore(I, fn, max_paths=2000, workers=16, path_time=300, total_time=1800, p
         for fd in rl:
             chunk = os.read(fd, 1 << 20)
             if chunk: running[fd][2].extend(chunk); continue
-            pid, prefix, buf, ts = running.pop(fd); os.close(fd); os.waitpid(pid, 0)
+            pid, prefix, buf, ts, token = running.pop(fd); os.close(fd); os.waitpid(pid, 0)
+            if token: POOL.release()
             try: res = pickle.loads(bytes(buf))
             except Exception:
                 res = {'status': 'internal', 'msg': 'child died without result (prefix %r)' % (prefix,), 'decisions': prefix, 'ndec': len(prefix), 'prefix_len': len(prefix), 'results': [], 'outs': {}, 'steps': 0, 'nq': 0, 'tq': 0, 'wall': 0, 'called': [], 'stubs': [], 'notes': [], 'choices': {}}
@@ -240,7 +247,7 @@ def explore(I, fn, max_paths=2000, workers=16, path_time=300, total_time=1800, p
             if progress: progress(res, len(done), len(work) + len(running))
         # kill children that exceed twice the per-path limit (alarm should already have fired)
         now = time.time()
-        for fd, (pid, prefix, buf, ts) in list(running.items()):
+        for fd, (pid, prefix, buf, ts, token) in list(running.items()):
             if now - ts > 2 * path_time + 30:
                 try: os.kill(pid, signal.SIGKILL)
                 except OSError: pass
